@@ -68,6 +68,7 @@ type interpreter struct {
 	inited    map[*ssa.Package]bool
 	fninfo    map[*ssa.Function]*fnInfo
 	spawnSync bool
+	preemptAfterSend bool // harness opt-in: a goroutine may be descheduled right after a completed send
 	lastExit  int
 	initDepth int
 	sideTab   map[sideKey]*int64
